@@ -7,7 +7,7 @@ CONSTANTS
   BlockNames = {"div"}
   VoidNames = {"br"}
   AttrChoices <- AttrChoicesNone
-  WsChoices = {"", "v"}
+  WsChoices = {"", "h", "v"}
   Words = {"w1"}
   Exprs = {"E1"}
   Conds = {"C1", "C2"}
